@@ -9,7 +9,7 @@ META = dict(
     level_note='strings <= 2-3 characters, collections <= 2 elements, nesting depth 3 in one fixed shape, decimals <= 3 digits; float/double are opaque bit patterns; timestamp decoding (floating point) is decided for bands of 2^12-2^20 ms around the listed instants with a QF_FP model of CPython timedelta arithmetic; uuid/Decimal constructors are modelled by stubs',
     technique='symbolic execution of the instrumented real codecs + z3 bit-vector (and QF_FP for timestamps) validity per path; counterexamples replayed on the real driver',
     bounds=dict(quick='see level_note; varint |v| <= 2^71; timestamp bands: epoch, now, 2^31 s, 2^33 s (year 2242), year 9000',
-                thorough='varint |v| <= 2^119 (wider values are outside: the lazily forked wide comparisons produced unconfirmed witnesses at >= 2^127), text 3 chars, collections <= 3 elements, more timestamp bands'),
+                thorough='varint |v| <= 2^135, text 3 chars, collections <= 3 elements, more timestamp bands'),
     assumptions=['Decimal("<int>e<int>") denotes that unscaled value and exponent', 'uuid.UUID(bytes=b).bytes == b'],
     stubs=['decimal.Decimal, uuid.UUID -> data-holding stubs', 'struct/bytearray/BytesIO/str codecs -> engine models'],
     outside=['inet (C library text conversion)', 'geometric and DateRange types', 'datetime/date objects as timestamp/date inputs (C types)'],
@@ -24,7 +24,7 @@ def jobs(tier):
     js = []
     for t in ('tinyint', 'smallint', 'int', 'bigint', 'counter'):
         js.append(Job('int-' + t, 'h_fixed_int', dict(typ=t), o))
-    js += [Job('varint', 'h_varint', dict(bits=119 if th else 71), o), Job('decimal-1', 'h_decimal', dict(ndigits=1), o),
+    js += [Job('varint', 'h_varint', dict(bits=135 if th else 71), o), Job('decimal-1', 'h_decimal', dict(ndigits=1), o),
            Job('decimal-2', 'h_decimal', dict(ndigits=2), o), Job('duration', 'h_duration', {}, o), Job('date', 'h_date', {}, o),
            Job('time', 'h_time', {}, o), Job('bool', 'h_bool', {}, o), Job('double', 'h_float', dict(code='d'), o),
            Job('float', 'h_float', dict(code='f'), o), Job('uuid', 'h_uuid', {}, o), Job('uvint', 'h_uvint', {}, o),
